@@ -72,6 +72,18 @@ pub struct KnownFinding {
 #[derive(Clone, Debug, Serialize, Deserialize, Default)]
 pub struct KnownFindings {
     pub findings: Vec<KnownFinding>,
+    /// replay files of repaired defects: re-executed by every run of the property's check; a
+    /// violation there means the defect is back
+    #[serde(default)]
+    pub regression_replays: Vec<RegressionReplay>,
+}
+
+#[derive(Clone, Debug, Serialize, Deserialize, Default)]
+pub struct RegressionReplay {
+    pub property: String,
+    pub replay: String,
+    #[serde(default)]
+    pub fixed_by: String,
 }
 
 pub fn load_known() -> KnownFindings {
@@ -771,6 +783,9 @@ fn worker_history(id: &str, tier: &str, seed: u64) -> ExitCode {
     let pinned = replay_pinned_findings(id);
     rep.known += pinned.known;
     rep.violations += pinned.violations;
+    let (corpus, corpus_n) = replay_regression_corpus(id);
+    rep.known += corpus.known;
+    rep.violations += corpus.violations;
 
     let wall = out.wall.as_secs_f64();
     let warnings = zero_probe_warnings(&stats, &["parent_sol_inherited", "mirror_heuristic_hits", "cached_state", "lps_infeasible"]);
@@ -803,6 +818,7 @@ fn worker_history(id: &str, tier: &str, seed: u64) -> ExitCode {
             "violating_runs": n_viol_runs,
             "violations_of_other_properties_seen": other_props,
             "known_findings_hit": rep.known,
+            "regression_replays_of_repaired_defects_run": corpus_n,
             "zero_probe_warnings": warnings,
             "detail": stats_json(&stats),
         },
@@ -855,6 +871,35 @@ fn replay_pinned_findings(id: &str) -> Reported {
         }
     }
     report_lines(&found)
+}
+
+/// Re-executes the committed replay of every *repaired* defect of this property (the regression
+/// corpus of known_findings.json). On the repaired tree they run clean; a violation of the
+/// property means the defect has returned and is reported like any other violation.
+fn replay_regression_corpus(id: &str) -> (Reported, usize) {
+    let known = load_known();
+    let mut found: Vec<(Violation, PathBuf)> = Vec::new();
+    let mut n = 0;
+    for r in known.regression_replays.iter().filter(|r| r.property == id) {
+        let path = verif_dir().join(&r.replay);
+        let Ok(text) = std::fs::read_to_string(&path) else {
+            eprintln!("harness error: regression replay {} is missing", path.display());
+            std::process::exit(2);
+        };
+        let rep: PwlReplay = match serde_json::from_str(&text) {
+            Ok(r) => r,
+            Err(e) => {
+                eprintln!("harness error: regression replay {}: {e}", path.display());
+                std::process::exit(2);
+            }
+        };
+        n += 1;
+        let res = pwlsim::run_scenario(&rep.scenario, Some(id));
+        if let Some(v) = res.violations.into_iter().find(|v| v.property == id) {
+            found.push((v, path.clone()));
+        }
+    }
+    (report_lines(&found), n)
 }
 
 fn write_evidence(id: &str, ev: &Value) {
@@ -996,6 +1041,9 @@ fn worker_c11(tier: &str, seed: u64) -> ExitCode {
     let pinned = replay_pinned_findings(id);
     rep.known += pinned.known;
     rep.violations += pinned.violations;
+    let (corpus, corpus_n) = replay_regression_corpus(id);
+    rep.known += corpus.known;
+    rep.violations += corpus.violations;
     let wall = out.wall.as_secs_f64();
     let warnings = zero_probe_warnings(
         &stats,
@@ -1038,6 +1086,7 @@ fn worker_c11(tier: &str, seed: u64) -> ExitCode {
             "cut_short_by_wall_clock": out.cut_short,
             "violating_executions": a.violating_executions,
             "known_findings_hit": rep.known,
+            "regression_replays_of_repaired_defects_run": corpus_n,
             "zero_probe_warnings": warnings,
             "detail": stats_json(&stats),
         },
